@@ -96,6 +96,15 @@ type c13PKI struct {
 	// a leaf for the MX host name issued by the foreign CA: the server of a domain whose TLSA records
 	// pin the OTHER hierarchy (chains J, M)
 	foreignLeaf *x509.Certificate
+	// CA certificates with the SAME subject and key as `inter` / `root` (so `leaf` is signed by them
+	// just as well) that are NOT good for a path: an intermediate that expired a month ago (the leaf
+	// was issued while it was still good and is itself within its validity period), one that is not
+	// valid yet, one that is no CA certificate (basicConstraints CA:FALSE), one restricted to TLS
+	// client authentication (extended key usage), and a root certificate that expired a month ago
+	// (chains P, Q, N, K, T); an intermediate whose name constraints exclude the MX host name and a root
+	// certificate with a path length constraint of zero (it may issue end-entity certificates only:
+	// a path through the intermediate is too long) (chains H, Y)
+	expInter, futInter, nonCAInter, ekuInter, expRoot, ncInter, plRoot *x509.Certificate
 	// private keys of the certificates a server can present as its own (op `attempt`)
 	keys map[*x509.Certificate]*ecdsa.PrivateKey
 }
@@ -254,6 +263,32 @@ func c13MakePKI(t *testing.T) *c13PKI {
 	p.root, p.foreign = c13Sys.root, c13Sys.foreign
 	p.inter = c13Sign(t, c13CA("verif intermediate", now), p.root, interK, rootK)
 	p.leaf = c13Sign(t, c13Leaf("leaf", c13MX, now.Add(-year), now.Add(10*year)), p.inter, leafK, interK)
+	month := 30 * 24 * time.Hour
+	variant := func(from, to time.Time, edit func(c *x509.Certificate)) *x509.Certificate {
+		c := c13CA("verif intermediate", now)
+		c.NotBefore, c.NotAfter = from, to
+		if edit != nil {
+			edit(c)
+		}
+		return c
+	}
+	p.expInter = c13Sign(t, variant(now.Add(-2*year), now.Add(-month), nil), p.root, interK, rootK)
+	p.futInter = c13Sign(t, variant(now.Add(month), now.Add(5*year), nil), p.root, interK, rootK)
+	p.nonCAInter = c13Sign(t, variant(now.Add(-year), now.Add(10*year), func(c *x509.Certificate) {
+		c.IsCA, c.KeyUsage = false, x509.KeyUsageDigitalSignature
+	}), p.root, interK, rootK)
+	p.ekuInter = c13Sign(t, variant(now.Add(-year), now.Add(10*year), func(c *x509.Certificate) {
+		c.ExtKeyUsage = []x509.ExtKeyUsage{x509.ExtKeyUsageClientAuth}
+	}), p.root, interK, rootK)
+	expRoot := c13CA("verif root", now)
+	expRoot.NotBefore, expRoot.NotAfter = now.Add(-2*year), now.Add(-month)
+	p.expRoot = c13Sign(t, expRoot, nil, rootK, nil)
+	p.ncInter = c13Sign(t, variant(now.Add(-year), now.Add(10*year), func(c *x509.Certificate) {
+		c.PermittedDNSDomainsCritical, c.PermittedDNSDomains = true, []string{"elsewhere.test"}
+	}), p.root, interK, rootK)
+	plRoot := c13CA("verif root", now)
+	plRoot.MaxPathLen, plRoot.MaxPathLenZero = 0, true
+	p.plRoot = c13Sign(t, plRoot, nil, rootK, nil)
 	p.foreignLeaf = c13Sign(t, c13Leaf("leaf of the foreign ca", c13MX, now.Add(-year), now.Add(10*year)), p.foreign, fleafK, foreignK)
 	p.expLeaf = c13Sign(t, c13Leaf("expired leaf", c13MX, now.Add(-2*year), now.Add(-year)), p.inter, expK, interK)
 	wrong := c13Leaf("wrong-name leaf", "other.verif.test", now.Add(-year), now.Add(10*year))
@@ -280,6 +315,9 @@ type c13Chain struct {
 	ca       []bool
 	anchorOK []bool
 	stated   bool // one of the five chains of the property's quantifier
+	// the certificates record targets 'I' and 'R' stand for on this chain when they are not the usual
+	// intermediate / root (the chain presents a variant of them)
+	tI, tR *x509.Certificate
 	// pkix (by construction): a client that trusts the two roots (c13PKI.publicPool) verifies this
 	// chain for c13MX in the first handshake — the chain is complete, valid and issued for the name.
 	// verified: what crypto/tls then reports as ConnectionState.VerifiedChains (nil when pkix is false)
@@ -294,11 +332,16 @@ type c13Chain struct {
 }
 
 // chain kinds; the first five are the property's, the others widen the space
-var c13ChainKinds = []string{"L", "LI", "LIR", "X", "W", "S", "F", "LR", "C", "G", "J", "M", "E"}
+var c13ChainKinds = []string{"L", "LI", "LIR", "X", "W", "S", "F", "LR", "C", "G", "J", "M", "P", "Q", "T", "N", "K", "H", "Y", "E"}
+
+// the chains whose leaf is good (right name, within its validity period, properly signed) and whose
+// PATH is not: a CA certificate on it is outside its validity period, is no CA certificate, may not
+// be used for server authentication, may not issue for the MX host name, or may not have a CA below it
+var c13BadPathKinds = []string{"P", "Q", "T", "N", "K", "H", "Y"}
 
 // the chains that pass ordinary (PKIX) verification for the MX host name at a client trusting both
 // roots
-var c13PKIXKinds = map[string]bool{"LI": true, "LIR": true, "G": true, "J": true, "M": true}
+var c13PKIXKinds = map[string]bool{"LI": true, "LIR": true, "G": true, "J": true, "M": true, "T": true, "Y": true}
 
 // the root pool of a client with an ordinary CA store: both hierarchies are trusted
 func (p *c13PKI) publicPool() *x509.CertPool {
@@ -339,6 +382,23 @@ func c13MakeChains(t *testing.T, p *c13PKI) map[string]*c13Chain {
 		mk("M", f, []*x509.Certificate{p.foreignLeaf, p.inter}, []bool{f, tr}, []bool{f, f}),
 		// no certificate at all (what ConnectionState holds without TLS)
 		mk("E", f, nil, nil, nil),
+	}
+	// a good leaf whose path to the anchors is NOT valid although every signature is: the intermediate
+	// expired (the leaf was issued before that), is not valid yet, is no CA certificate, may not be used
+	// for server authentication, is name-constrained to another domain; the root certificate expired, or
+	// allows no CA below it (the intermediate, as the anchor, is fine; the system store holds the current
+	// root certificate of the same key: ordinary verification passes)
+	for _, c := range []*c13Chain{
+		mk("P", f, []*x509.Certificate{p.leaf, p.expInter, p.root}, []bool{f, tr, tr}, []bool{f, f, f}),
+		mk("Q", f, []*x509.Certificate{p.leaf, p.futInter, p.root}, []bool{f, tr, tr}, []bool{f, f, f}),
+		mk("T", f, []*x509.Certificate{p.leaf, p.inter, p.expRoot}, []bool{f, tr, tr}, []bool{f, tr, f}),
+		mk("N", f, []*x509.Certificate{p.leaf, p.nonCAInter, p.root}, []bool{f, f, tr}, []bool{f, f, f}),
+		mk("K", f, []*x509.Certificate{p.leaf, p.ekuInter, p.root}, []bool{f, tr, tr}, []bool{f, f, f}),
+		mk("H", f, []*x509.Certificate{p.leaf, p.ncInter, p.root}, []bool{f, tr, tr}, []bool{f, f, f}),
+		mk("Y", f, []*x509.Certificate{p.leaf, p.inter, p.plRoot}, []bool{f, tr, tr}, []bool{f, tr, f}),
+	} {
+		c.tI, c.tR = c.certs[1], c.certs[2]
+		cs = append(cs, c)
 	}
 	out := map[string]*c13Chain{}
 	for _, c := range cs {
@@ -560,8 +620,14 @@ func (w *c13World) targetCert(r c13Rec, ch *c13Chain) *x509.Certificate {
 		}
 		return w.pki.leaf
 	case 'I':
+		if ch.tI != nil {
+			return ch.tI
+		}
 		return w.pki.inter
 	case 'R':
+		if ch.tR != nil {
+			return ch.tR
+		}
 		return w.pki.root
 	case 'F':
 		return w.pki.foreign
@@ -1016,6 +1082,12 @@ func TestVerifC13Verify(t *testing.T) {
 	types := c13StatedRecTypes()
 	stated := []string{"L", "LI", "LIR", "X", "W"}
 
+	// (0) first of all the plainest case of every bad-path chain: `2 1 1` with the SPKI digest of the
+	// chain's root certificate (the grids below contain it again; a violation report quotes the first
+	// of the shortest failing op lines)
+	for _, ck := range c13BadPathKinds {
+		w.verifyCase(out, []c13Rec{{usage: 2, sel: 1, mt: 1, target: 'R', dsel: 1, dmt: 1}}, ck, true, true)
+	}
 	// (1) exhaustive: the stated space for multisets of size 0 and 1, all chains (extras included),
 	// with and without a completed handshake
 	for _, ck := range c13ChainKinds {
@@ -1039,8 +1111,15 @@ func TestVerifC13Verify(t *testing.T) {
 	// (CNAME'd RRsets, odd names), all chains — the leaf issued for another name that chains to
 	// the matched anchor (W, C) among them
 	cnt1b := 0
+	badPath := map[string]bool{}
+	for _, ck := range c13BadPathKinds {
+		badPath[ck] = true
+	}
 	for o := 1; o < len(c13Owners); o++ {
-		for _, ck := range c13ChainKinds {
+		for ci, ck := range c13ChainKinds {
+			if badPath[ck] && !vh.Thorough() && (o+ci+int(vh.Seed()))%3 != 0 {
+				continue // quick: a third of the owner names (rotating) on these chains
+			}
 			for _, a := range types {
 				if !c13Usable(a.usage, a.sel, a.mt) {
 					continue
@@ -1091,7 +1170,7 @@ func TestVerifC13Verify(t *testing.T) {
 		}
 	}
 	eeMiss := c13Rec{usage: 3, sel: 1, mt: 1, target: 'N', dsel: 1, dmt: 1}
-	for _, ck := range []string{"G", "J", "M", "LIR", "LI", "F", "LR"} {
+	for _, ck := range append([]string{"G", "J", "M", "LIR", "LI", "F", "LR"}, c13BadPathKinds...) {
 		for _, vc := range []bool{true, false} {
 			if vc && w.chains[ck].verified == nil {
 				continue
@@ -1536,6 +1615,31 @@ func TestVerifC13CheckConn(t *testing.T) {
 		w.checkCaseA(out, true, "ok", taI, "W", true, 0, string(a))
 		w.checkCaseA(out, true, "ok", taI, "LI", true, h, string(a))
 		w.checkCaseA(out, true, "ok", un, "LIR", true, 0, string(a))
+	}
+	// a good leaf on a path that is not valid (an expired / not yet valid / non-CA / wrong-purpose
+	// intermediate, an expired root certificate): every usable DANE-TA form pinning the intermediate or
+	// the root of the chain, alone and next to an unusable and a non-matching DANE-EE record; a DANE-EE
+	// record for the leaf authenticates on every one of them
+	for ci, ck := range c13BadPathKinds {
+		for _, s := range []uint8{0, 1} {
+			for _, m := range []uint8{0, 1, 2} {
+				for ti, tg := range []byte{'I', 'R'} {
+					ta := c13Rec{usage: 2, sel: s, mt: m, target: tg, dsel: s, dmt: m}
+					h := 0
+					if (ci+int(s)+int(m)+ti+int(vh.Seed()))%3 == 0 {
+						h = (ci + int(m) + ti) % len(c13HostSpellings)
+					}
+					w.checkCase(out, true, "ok", []c13Rec{ta}, ck, true, h)
+					if m == 1 {
+						w.checkCase(out, true, "ok", c13Shuffle(rng, []c13Rec{
+							{usage: 1, sel: 1, mt: 1, target: 'L', dsel: 1, dmt: 1},
+							{usage: 3, sel: 1, mt: 1, target: 'N', dsel: 1, dmt: 1}, ta}), ck, true, 0)
+					}
+				}
+			}
+		}
+		w.checkCase(out, true, "ok", []c13Rec{{usage: 3, sel: 1, mt: 1, target: 'L', dsel: 1, dmt: 1}}, ck, true, 0)
+		w.checkCase(out, true, "ok", []c13Rec{{usage: 2, sel: 1, mt: 1, target: 'R', dsel: 1, dmt: 1}}, ck, false, 0)
 	}
 	n := vh.N(4000) / 4
 	for i := 0; i < n; i++ {
@@ -2756,6 +2860,20 @@ func TestVerifC13Conn(t *testing.T) {
 				w.connCaseX(t, out, z, "E", false, "", 0)
 				w.connCaseX(t, out, z, "L", false, "", h)
 				w.connCaseX(t, out, z, "LIR", true, "", 0)
+			}
+		}
+	}
+	// a good leaf on a path that is not valid (c13BadPathKinds): the published DANE-TA record pins the
+	// intermediate / the root of the presented chain
+	for ci, ck := range c13BadPathKinds {
+		for fi, f := range [][2]uint8{{1, 1}, {0, 1}, {0, 0}, {1, 2}} {
+			for ti, tg := range []byte{'I', 'R'} {
+				z := pinned
+				z.recsM = []c13Rec{{usage: 2, sel: f[0], mt: f[1], target: tg, dsel: f[0], dmt: f[1]}}
+				if (ci+fi+ti)%3 == 2 {
+					z = c13Zone{a: "-", c: "ss", q: "-", r: "s", m: "X", f: 2, recsR: z.recsM}
+				}
+				w.connCaseX(t, out, z, ck, true, "", (ci+fi+ti+int(vh.Seed()))%len(c13HostSpellings))
 			}
 		}
 	}
@@ -4267,6 +4385,22 @@ func TestVerifC13Attempt(t *testing.T) {
 	}
 	for _, i := range []int{8, 2} {
 		run(c13Att{zone: zoneOf(sets[i]...), ck: "LIR", modes: "TTT", pool: 't', base: 'd', hr: true})
+	}
+	// (2f) a good leaf on a path that is not valid (c13BadPathKinds: expired / not yet valid / non-CA /
+	// wrong-purpose intermediate, expired root certificate): pins of the intermediate (1, 10) and of the
+	// root (2, 3) of the presented chain, and one more DANE-TA form for each; the client trusts no CA / the
+	// roots / the system store (block (1) has the full record-set grid with no CA trusted); first handshake
+	// broken; another spelling of the host name
+	for ci, ck := range c13BadPathKinds {
+		for _, pool := range []byte{'t', 's'} {
+			for _, i := range []int{1, 2, 3, 10} {
+				run(c13Att{zone: zoneOf(sets[i]...), ck: ck, modes: "TTT", pool: pool, base: 'd', hr: true})
+			}
+		}
+		run(c13Att{zone: zoneOf(rec(2, 1, 2, 'R')), ck: ck, modes: "TTT", pool: 'p', base: 'd', hr: true})
+		run(c13Att{zone: zoneOf(rec(2, 1, 0, 'I')), ck: ck, modes: "TTT", pool: 'p', base: 'd', hr: true})
+		run(c13Att{zone: zoneOf(sets[2]...), ck: ck, modes: "HTT", pool: 't', base: 'd', hr: true})
+		run(c13Att{zone: zoneOf(sets[2]...), ck: ck, modes: "TTT", pool: 'p', base: 'd', host: 1 + (ci+int(vh.Seed()))%(len(c13HostSpellings)-1), hr: true})
 	}
 	// (2e) the server's chain is valid for the MX name under the SYSTEM trust store (the client has no
 	// RootCAs of its own: first handshake verified by crypto/tls against the system pool), and the RRset
